@@ -60,6 +60,10 @@ static void r_poly_verify(void) { OUT[0] = (unsigned char) crypto_onetimeauth_ve
 static void r_auth(void) { crypto_auth(OUT, SEC + 32, publen, SEC); }
 static void r_auth256(void) { crypto_auth_hmacsha256(OUT, SEC + 32, publen, SEC); }
 static void r_auth_verify(void) { OUT[0] = (unsigned char) crypto_auth_verify(OUT2, SEC + 32, publen, SEC); }
+static void r_auth256_verify(void) { OUT[0] = (unsigned char) crypto_auth_hmacsha256_verify(OUT2, SEC + 32, publen, SEC); }
+static void r_auth512_verify(void) { OUT[0] = (unsigned char) crypto_auth_hmacsha512_verify(OUT2, SEC + 32, publen, SEC); }
+static void r_auth512(void) { crypto_auth_hmacsha512(OUT, SEC + 32, publen, SEC); }
+static void r_shorthashx(void) { crypto_shorthash_siphashx24(OUT, SEC + 32, publen, SEC); }
 static void r_sha256(void) { crypto_hash_sha256(OUT, SEC + 32, publen); }
 static void r_sha512(void) { crypto_hash_sha512(OUT, SEC + 32, publen); }
 static void r_blake(void) { crypto_generichash(OUT, 32, SEC + 32, publen, SEC, 32); }
@@ -93,7 +97,8 @@ static const op OPS[] = {
     { "crypto_core_ed25519_scalar_invert", 32, 0, 0, 0, 0, 0, r_sc_inv }, { "crypto_core_ed25519_scalar_reduce", 64, 0, 0, 0, 0, 0, r_sc_reduce },
     { "crypto_stream_chacha20_xor", 0, 1, 0, 130, 0, 0, r_chacha }, { "crypto_stream_chacha20_ietf_xor", 0, 1, 0, 130, 0, 0, r_chacha_ietf }, { "crypto_stream_xchacha20_xor", 0, 1, 0, 130, 0, 0, r_xchacha },
     { "crypto_stream_salsa20_xor", 0, 1, 0, 130, 0, 0, r_salsa }, { "crypto_stream_xsalsa20_xor", 0, 1, 0, 130, 0, 0, r_xsalsa },
-    { "crypto_onetimeauth", 0, 1, 0, 130, 0, 0, r_poly }, { "crypto_onetimeauth_verify", 0, 1, 0, 130, 0, 0, r_poly_verify }, { "crypto_auth", 0, 1, 0, 130, 0, 0, r_auth }, { "crypto_auth_hmacsha256", 0, 1, 0, 130, 0, 0, r_auth256 },
+    { "crypto_onetimeauth", 0, 1, 0, 130, 0, 0, r_poly }, { "crypto_onetimeauth_verify", 0, 1, 0, 130, 0, 0, r_poly_verify }, { "crypto_auth", 0, 1, 0, 130, 0, 0, r_auth }, { "crypto_auth_hmacsha256_verify", 0, 1, 0, 130, 0, 0, r_auth256_verify }, { "crypto_auth_hmacsha512_verify", 0, 1, 0, 130, 0, 0, r_auth512_verify }, { "crypto_auth_hmacsha512", 0, 1, 0, 130, 0, 0, r_auth512 }, { "crypto_shorthash_siphashx24", 0, 1, 0, 130, 0, 0, r_shorthashx },
+    { "crypto_auth_hmacsha256", 0, 1, 0, 130, 0, 0, r_auth256 },
     { "crypto_auth_verify", 0, 1, 0, 130, 0, 0, r_auth_verify }, { "crypto_hash_sha256", 0, 1, 0, 130, 0, 0, r_sha256 }, { "crypto_hash_sha512", 0, 1, 0, 130, 0, 0, r_sha512 },
     { "crypto_generichash(keyed)", 0, 1, 0, 130, 0, 0, r_blake }, { "crypto_shorthash", 0, 1, 0, 130, 0, 0, r_siphash }, { "crypto_kdf_derive_from_key", 32, 0, 0, 0, 0, 0, r_kdf },
     { "crypto_aead_chacha20poly1305_ietf_encrypt", 0, 1, 0, 130, 0, 0, r_aead }, { "crypto_aead_xchacha20poly1305_ietf_encrypt", 0, 1, 0, 130, 0, 0, r_aead_x },
